@@ -16,6 +16,7 @@ RULE = ("set-ups in a Cartesian system: (Stokes) closed curve vs spanning surfac
         "coefficients in a third of the cases. Each result is compared with the other route and with own quadrature, must be "
         "free of coordinate/parameter symbols, invariant under t->2t, t->t^2 and negated by reversed limits / t->-t. "
         "non-trivial = expected value != 0; distinct = distinct (set-up, field).")
+RULE = RULE + " Also: every core call repeated through the catalogue's wrapper in laws/fields (must agree); two-component fields depending on z, rectangles in planes y = const, region reparametrisations; Gauss on coordinate boxes of cylindrical and spherical systems against own quadrature (Cartesian divergence x Jacobian; outward flux through the six coordinate faces)."
 ASSUMPTIONS = ["mpmath.quad of the integrand pulled back with plain sympy subs/diff (no library code) is the reference value",
                "a SymPy integrate() that stalls (watchdog) is inconclusive"]
 N = {"quick": 96, "thorough": 960}
